@@ -613,6 +613,13 @@ class Emitter:
         name = 'agg%d' % len(self.aggs)
         self.aggs[key] = 'struct ' + name
         r = self.L.resolve(ty)
+        if ty[0] == 'named' and ty[1].startswith('%union.') and r[0] == 'struct':
+            # C/C++ unions (std::string's {capacity | local buffer}): LLVM models them as the largest member plus padding.
+            # Emit plain bytes so that character stores into the buffer are array updates, not updates of a 64-bit field.
+            sz, al = self.L.size_align(ty)
+            self.union_types = getattr(self, 'union_types', set()) | {key}
+            self.agg_defs.append('struct %s { uint8_t b[%d]; } __attribute__((aligned(%d)));' % (name, max(sz, 1), al))
+            return 'struct ' + name
         if r[0] == 'struct':
             fields = []
             for j, e in enumerate(r[1]):
@@ -657,6 +664,8 @@ class Emitter:
         if k == 'carray' or k == 'cvector':
             return '{{' + ','.join(self.const_init(et, ev) for et, ev in v[1]) + '}}' if v[1] else '{0}'
         if k == 'cstruct':
+            if ty in getattr(self, 'union_types', ()):
+                return '{{0}}'   # union-typed constant: only all-zero initialisers are expected
             return '{' + ','.join(self.const_init(et, ev) for et, ev in v[1]) + '}' if v[1] else '{0}'
         if k == 'global':
             self.need_global(v[1])
@@ -1607,6 +1616,16 @@ class FnEmitter:
             if not const_n:
                 # symbolic length: CBMC's built-in model allocates a symbolic-size array (solver blow-up); use a byte loop instead
                 return ['ll_memmove_dyn(%s, %s, %s);' % (argv[0], argv[1], argv[2])]
+            cn = I['args'][2][1][1]
+            if 0 < cn <= 24:
+                # small constant length: explicit byte moves (read all, then write all = memmove semantics); CBMC's built-in
+                # memcpy on a destination with a symbolic offset is far more expensive
+                self.tmpn += 1
+                t = self.tmpn
+                out = ['{ uint8_t* d_%d = %s; uint8_t* s_%d = %s;' % (t, argv[0], t, argv[1])]
+                out.append(' '.join('uint8_t t_%d_%d = s_%d[%d];' % (t, k, t, k) for k in range(cn)))
+                out.append(' '.join('d_%d[%d] = t_%d_%d;' % (t, k, t, k) for k in range(cn)) + ' }')
+                return out
             return ['memmove(%s, %s, %s);' % (argv[0], argv[1], argv[2])] if n.startswith('memmove.') else ['memcpy(%s, %s, %s);' % (argv[0], argv[1], argv[2])]
         if n.startswith('memset.'):
             if I['args'][2][1][0] != 'int':
